@@ -51,6 +51,7 @@ fn main() {
                 "C02" => props::c02::run(&cx),
                 "C03" => props::c03::run(&cx),
                 "C04" => props::c04::run(&cx),
+                "C05" => props::c05::run(&cx),
                 "C09" => props::c09::run(&cx),
                 other => {
                     eprintln!("unknown property {}", other);
@@ -58,6 +59,24 @@ fn main() {
                 }
             };
             std::process::exit(code);
+        }
+        Some("case") => {
+            // cvh case '<grammar json>' '<input>'  : print the model's and the parser's view of one case
+            let g = gram::G::from_json(&serde_json::from_str(&args[2]).expect("grammar json")).expect("grammar").numbered();
+            let input: Vec<char> = args.get(3).map(|s| s.chars().collect()).unwrap_or_default();
+            props::show_case(&g, &input);
+        }
+        Some("replay") => {
+            let v: serde_json::Value = serde_json::from_str(&std::fs::read_to_string(&args[2]).expect("replay file")).expect("json");
+            println!("property {} — recorded: {}", v["property"], v["what"]);
+            let case = &v["case"];
+            if case.get("grammar").is_some() {
+                let g = gram::G::from_json(&case["grammar"]).expect("grammar").numbered();
+                let input: Vec<char> = case["input"].as_str().unwrap_or("").chars().collect();
+                props::show_case(&g, &input);
+            } else {
+                println!("case: {}", serde_json::to_string_pretty(case).unwrap());
+            }
         }
         _ => {
             eprintln!("usage: cvh run <Cxx> [--tier quick|thorough] [--seed N]");
